@@ -3,9 +3,11 @@ package c08
 import (
 	"context"
 	"crypto/sha256"
+	"encoding/json"
 	"fmt"
 	"hash/fnv"
 	"os"
+	"path/filepath"
 	"strings"
 	"sync"
 	"sync/atomic"
@@ -538,12 +540,50 @@ func TestCheck(t *testing.T) {
 	if st2.Capped != "" {
 		caps = append(caps, "lazy part: "+st2.Capped)
 	}
+	lostTotal, counted := sumOverShards(sh, [2]int64{lostRuns.Load(), lostReqs.Load()})
 	r.Finish(vf.Coverage{
 		Evaluations: full.Load() + lazyFull.Load(), DistinctNontrivial: int64(r.DistinctOutcomes()), States: int64(r.DistinctOutcomes()), Transitions: points.Load(),
 		Rule:       "every action sequence of the depth bound over {produce non-empty, produce empty, one DA block with accepting DA, one DA block of DA outage (every request answered with an error; at most max_outage_blocks), one DA block in which the header requests / the data requests / both get NO answer (the calls stay open, afterwards the DA layer accepts; at most max_lost_request_blocks), crash + restart, clean stop + restart (together at most max_restarts; a restart = a NEW Manager and new submission loops over the key/value image the old process left behind, same DA layer / executor / sequencing layer)} × limit {1,2,3} × initial height {1,3}, on the real production step and the real submission loops under virtual time, each followed by three accepting DA blocks (lost_request_horizon_da_blocks more after a lost request) and one production attempt; part 2 (lazy mode, idle chain, real AggregationLoop): every outage pattern (accepting / error / no answer, the last at most lazy_max_lost_request_blocks times) over lazy_da_blocks DA blocks × limit {1,2} × at most lazy_max_restarts restarts (crash or clean stop) at the DA-block boundaries; distinct = distinct produced/declined/restarted signatures",
 		Exhaustive: true, Caps: caps,
 		Bounds: map[string]any{"depth": depth, "limits": []int{1, 2, 3}, "initial_heights": []int{1, 3}, "max_outage_blocks": 3, "max_restarts": maxRestarts, "restart_kinds": []string{"crash", "clean-stop"}, "lazy_da_blocks": lazyBlocks, "lazy_limits": []int{1, 2}, "lazy_max_restarts": lazyRestarts,
 			"max_lost_request_blocks": maxLost, "lost_request_kinds": []string{"header requests", "data requests", "both"}, "lazy_max_lost_request_blocks": lazyLost, "lost_request_horizon_da_blocks": lostHorizon,
-			"histories_with_unanswered_request_this_process": lostRuns.Load(), "unanswered_requests_this_process": lostReqs.Load()},
+			"histories_with_unanswered_request": lostTotal[0], "unanswered_requests": lostTotal[1], "processes_counted_for_these_two": counted},
 	})
+}
+
+// sumOverShards adds up per-process counters over all shard processes: every shard publishes its numbers next to the
+// shard results; shard 0 (whose coverage record carries the bounds) waits for the others' files (bounded) and returns
+// the sums and the number of processes counted. Unsharded runs return their own numbers.
+func sumOverShards(sh sharder, mine [2]int64) (sum [2]int64, counted int) {
+	out := os.Getenv("VERIF_SHARD_OUT")
+	if out == "" || sh.n <= 1 {
+		return mine, 1
+	}
+	dir := filepath.Dir(out)
+	name := func(i int) string { return filepath.Join(dir, fmt.Sprintf("c08-lost-%d.stat", i)) }
+	bz, _ := json.Marshal(mine)
+	tmp := name(sh.i) + ".tmp"
+	if err := os.WriteFile(tmp, bz, 0o600); err == nil {
+		_ = os.Rename(tmp, name(sh.i))
+	}
+	if sh.i != 0 {
+		return mine, 1
+	}
+	limit := time.Now().Add(3 * time.Minute)
+	for i := 0; i < sh.n; i++ {
+		for {
+			var v [2]int64
+			if bz, err := os.ReadFile(name(i)); err == nil && json.Unmarshal(bz, &v) == nil {
+				sum[0] += v[0]
+				sum[1] += v[1]
+				counted++
+				break
+			}
+			if time.Now().After(limit) {
+				break
+			}
+			time.Sleep(20 * time.Millisecond)
+		}
+	}
+	return
 }
